@@ -188,6 +188,55 @@ def run_sel_case(case, pname, occ=0):
     return problems
 
 
+def check_extra(chk):
+    """(a) the short fluent aliases select the same rows as the functions they abbreviate; (b) search by field index 0 /
+    by a field named ''.  (Values outside the ordering's domain - NaN, sets - are not judged: C13 quantifies over C04's domain.)"""
+    import petl as etl
+    t = [['x', 'y'], [1, 'a'], [5, 'b'], [5, 'c'], [9, 'd'], [None, 'e']]
+    w = etl.wrap(t)
+    pairs = [('eq', etl.selecteq), ('ne', etl.selectne), ('lt', etl.selectlt), ('le', etl.selectle), ('gt', etl.selectgt), ('ge', etl.selectge)]
+    for alias, fn in pairs:
+        for comp in (False, True):
+            chk.count(('alias', alias, comp))
+            chk.replayed += 1
+            try:
+                got = [tuple(r) for r in getattr(w, alias)('x', 5, complement=comp)]
+                want = [tuple(r) for r in fn(t, 'x', 5, complement=comp)]
+                got2 = [tuple(r) for r in getattr(w, 'select' + alias)('x', 5, complement=comp)]
+            except Exception as e:
+                got, want, got2 = 'raised %r' % (e,), None, None
+            if got != want or got2 != want:
+                chk.violation({'op': 'select' + alias, 'kind': 'alias'}, 'wrap(t).%s(x, 5, complement=%s) delivers %r, select%s %r, wrap(t).select%s %r'
+                              % (alias, comp, got, alias, want, alias, got2), {'kind': 'extra', 'what': 'alias'})
+    for alias, fn, args in (('rangeopen', etl.selectrangeopen, ('x', 1, 5)), ('rangeclosed', etl.selectrangeclosed, ('x', 1, 5)),
+                            ('rangeopenleft', etl.selectrangeopenleft, ('x', 1, 5)), ('rangeopenright', etl.selectrangeopenright, ('x', 1, 5)),
+                            ('contains', etl.selectcontains, ('y', 'a')), ('notin', etl.selectnotin, ('x', (1, 9))), ('none', etl.selectnone, ('x',)),
+                            ('notnone', etl.selectnotnone, ('x',)), ('true', etl.selecttrue, ('x',)), ('false', etl.selectfalse, ('x',)),
+                            ('is', etl.selectis, ('x', None)), ('isnot', etl.selectisnot, ('x', None)), ('isinstance', etl.selectisinstance, ('x', int))):
+        if not hasattr(w, alias):
+            continue
+        chk.count(('alias', alias))
+        chk.replayed += 1
+        got = [tuple(r) for r in getattr(w, alias)(*args)]
+        want = [tuple(r) for r in fn(t, *args)]
+        if got != want:
+            chk.violation({'op': 'select' + alias, 'kind': 'alias'}, 'wrap(t).%s%r delivers %r, the function %r' % (alias, args, got, want), {'kind': 'extra', 'what': 'alias'})
+    # (b) field given as index 0 / named '' : only that field is searched
+    for hdr in (['p', 'q'], [u'', 'q']):
+        ts = [list(hdr), ['xa', 'ob'], ['ob', 'xa'], ['oo', 'oo']]
+        for fld in (0, hdr[0]):
+            for fn, want in ((etl.search, [('xa', 'ob')]), (etl.searchcomplement, [('ob', 'xa'), ('oo', 'oo')])):
+                chk.count(('search-field', repr(hdr), repr(fld), fn.__name__))
+                chk.replayed += 1
+                try:
+                    got = [tuple(r) for r in fn(ts, fld, 'x')][1:]
+                except Exception as e:
+                    got = 'raised %r' % (e,)
+                if got != want:
+                    chk.violation({'op': fn.__name__, 'kind': 'falsy-field'}, '%s(t, %r, "x") on header %r delivers %r, the rows whose first field matches are %r'
+                                  % (fn.__name__, fld, hdr, got, want), {'kind': 'extra', 'what': 'search-field'})
+
+
 def run_slice_case(case):
     import petl as etl
     n = case['n']
@@ -308,6 +357,7 @@ def run(tier, seed):
                 chk.violation({'op': p.split('(')[0].split(' ')[0], 'kind': 'select'},
                               'rows=%r field=%s ref=%r profile=%s: %s' % (case['rows'], HDR[case['f'] - 1], case['ref'], pname, p),
                               {'kind': 'sel', 'case': case, 'profile': pname, 'occ': ci})
+    check_extra(chk)
     for case in slices:
         probs = run_slice_case(case)
         chk.count(('slice', case['n']))
